@@ -201,6 +201,23 @@ def campaign(c):
         if f.get('len') != '240' or wrong or b[236:] != dfl['magic']:
             bad(c, 'dhcp-layout', 'DHCP header fields %s are not at their RFC 2131 offsets / widths (len %s)' % (wrong, f.get('len')), rep)
         c.case(('dhcp', tuple(sorted(want))), dict(kind='dhcp::hdr', req=req[:200]) if i % 20 == 0 else None)
+    # byte-string fields given as TEXT that spells something a helper might want to interpret (a MAC address in the usual
+    # notations, dotted quads, hex, host names, paths): the field holds those bytes, padded or cut to its width
+    TEXTY = [b'78:24:af:23:f0:a9', b'DE-AD-be-ef-00-01', b'78-24-af-23-f0-a9', b'7824.af23.f0a9', b'192.168.1.1', b'0x7824af23f0a9', b'7824af23f0a9', b'00:00:00:00:00:00',
+             b'ff:ff:ff:ff:ff:ff', b'boot.example.com', b'/tftpboot/pxelinux.0', b'\\\\server\\share', b' padded ', b'trailing\n', b'%s%n', b'a=b;c', b'[::1]', b'1', b'']
+    for fld, w in (('chaddr', 16), ('sname', 64), ('file', 128)):
+        for t in TEXTY:
+            for extra in ([], ['hlen=u8:16'], ['htype=u8:6', 'hlen=u8:%d' % min(len(t), 255)]):
+                res, req = call_both(c, [['dhcp::hdr', '%s=%s' % (fld, s(t))] + extra])
+                b = val_bytes(res[0]); rep = dict(req=req)
+                if b is None: bad(c, 'dhcp-failed', 'dhcp::hdr failed: %s' % res[0][:60], rep); continue
+                f = kv(parse(c, 'dhcp', b))
+                if f.get(fld) != sh_hex((t[:w] + b'\0' * w)[:w]) or f.get('len') != '240':
+                    bad(c, 'dhcp-layout', 'dhcp::hdr(%s: %r): the field does not hold the bytes supplied (padded / cut to %d)' % (fld, t, w), rep)
+                want_hlen = [x for x in extra if x.startswith('hlen=')]
+                if f.get('hlen') != ('%02x' % int(want_hlen[0].split(':')[1]) if want_hlen else '06'):
+                    bad(c, 'dhcp-layout', 'dhcp::hdr(%s: %r, %s): hlen is %s' % (fld, t, extra, f.get('hlen')), rep)
+        c.case(('dhcp-text', fld), dict(kind='dhcp-text', field=fld))
     c.assumptions += ['names are restricted to non-empty labels of at most 63 non-dot bytes (the property\'s quantifier)']
 
 
